@@ -92,9 +92,15 @@ func Verify(a wallet.Address, state *State, sig wallet.Sig) (bool, error) {
 }
 
 // NewAsset returns a variable of type Asset, which can be used
-// for unmarshalling an asset from its binary representation.
+// for unmarshalling an asset from its binary representation. It returns nil
+// if no backend is registered under the given id, which decoders must check
+// because the id is read from the wire.
 func NewAsset(id wallet.BackendID) Asset {
-	return backend[id].NewAsset()
+	b, ok := backend[id]
+	if !ok {
+		return nil
+	}
+	return b.NewAsset()
 }
 
 // NewAppID returns an object of type AppID, which can be used for
